@@ -1,1 +1,165 @@
-/-! Property theorems for C10 (statements + proofs by reference to `Proof/`). Not built yet. -/
+import GraafVerif.Model.Johnson
+import GraafVerif.Spec.Johnson
+import GraafVerif.Proof.JohnsonSpec
+import GraafVerif.Proof.JohnsonTop
+import GraafVerif.Proof.JohnsonTop2
+import GraafVerif.Proof.JohnsonTarjan3
+import GraafVerif.Proof.JohnsonFuel
+import GraafVerif.Proof.JohnsonDriverGraph
+/-!
+# C10 — Johnson75 enumerates every elementary circuit exactly once
+
+Only statements and proofs-by-reference.  `circuits` is the model of `Johnson75::circuits`
+(`Model/Johnson.lean`, `Model/JohnsonTarjan.lean`, `Model/JohnsonMap.lean`), tied to the code by
+the correspondence run; `allCircuits` is the naive enumerator the driver uses as oracle.
+-/
+namespace GraafVerif.C10
+open GraafVerif GraafVerif.Johnson
+
+/-- Full statement of C10: on every simple digraph with vertex set `0..n` the model of
+`Johnson75::circuits` returns a duplicate-free list whose members are exactly the canonical
+elementary circuits (each elementary circuit exactly once, written from its smallest vertex,
+and nothing else). -/
+def Statement : Prop :=
+  ∀ g : Graph, g.WF → NoLoops g → RowsNodup g →
+    (circuits g).Nodup ∧ ∀ c, c ∈ circuits g ↔ IsCanonicalElemCircuit g c
+
+/-- The `assert!` at the head of `circuits()` never fires on a vertex set `0..n`: the checked
+model (`none` = panic) returns `circuits g`. -/
+theorem circuitsChecked_ofGraph (g : Graph) : circuitsChecked (AM.ofGraph g) = some (circuits g) := by
+  unfold circuitsChecked
+  have : (AM.ofGraph g).verts.all (fun u => decide (u < (AM.ofGraph g).order)) = true := by
+    simp [AM.ofGraph, AM.order]
+  rw [if_pos this]
+  rfl
+
+/-! ## P0 — the oracle is verified -/
+
+/-- The naive enumerator returns exactly the canonical elementary circuits … -/
+theorem allCircuits_spec (g : Graph) (hwf : g.WF) (c : List Nat) :
+    c ∈ allCircuits g ↔ IsCanonicalElemCircuit g c := Johnson.allCircuits_spec g hwf c
+
+/-- … each exactly once. -/
+theorem allCircuits_nodup (g : Graph) (hrows : RowsNodup g) : (allCircuits g).Nodup :=
+  Johnson.allCircuits_nodup g hrows
+
+/-! ## P1 — soundness of the model -/
+
+/-- Every list the model of `Johnson75::circuits` returns is a canonical elementary circuit
+(length ≥ 2, distinct vertices, consecutive arcs, closing arc, starts at its minimum) and no list
+is returned twice.  (Invariant: the stack is a duplicate-free path of blocked vertices inside the
+component, and no cascade of `unblock` started at a stack vertex reaches a vertex below it.) -/
+theorem johnson_sound (g : Graph) (hwf : g.WF) (hloops : NoLoops g) (hrows : RowsNodup g) :
+    (circuits g).Nodup ∧ ∀ c ∈ circuits g, IsCanonicalElemCircuit g c :=
+  Johnson.circuits_sound g hwf hloops hrows
+
+/-- Consequence: the model's output is a duplicate-free sub-multiset of the verified enumeration;
+the two are permutations of each other as soon as their lengths agree (what the driver checks
+per instance for the implementation). -/
+theorem johnson_subset_allCircuits (g : Graph) (hwf : g.WF) (hloops : NoLoops g) (hrows : RowsNodup g) :
+    ∀ c ∈ circuits g, c ∈ allCircuits g :=
+  fun c hc => (allCircuits_spec g hwf c).2 ((johnson_sound g hwf hloops hrows).2 c hc)
+
+/-! ## P2 — completeness of the model -/
+
+/-- What Johnson's loop needs from Tarjan, proved for the Tarjan model: on the subgraph induced
+by the vertices `≥ s`, every emitted component that contains `s` contains every vertex of every
+canonical circuit starting at `s`.  (Classical Tarjan invariants, `Proof/JohnsonTarjan2.lean`:
+stack indices increasing, indexed = stack ∪ popped, `low ≤ index`, every prefix of the emitted
+components closed under arcs, components pairwise disjoint; fuel adequacy of `connect` is part of
+the proof: the recursion is never cut short because every call indexes a new vertex.) -/
+theorem tarjan_covers (g : Graph) (hwf : g.WF) : TarjanCovers g := Johnson.tarjanCovers g hwf
+
+/-- Completeness relative to `TarjanCovers` (Johnson's blocked / B-list invariant: a blocked
+vertex `x` that is not on the stack has no arc to `s`, all its out-neighbours `w` are blocked and
+`x ∈ B[w]`; hence a vertex from which `s` can be reached avoiding the stack is never blocked). -/
+theorem johnson_complete_of_tarjan (g : Graph) (hwf : g.WF) (hloops : NoLoops g) (hrows : RowsNodup g)
+    (htc : TarjanCovers g) : ∀ c, IsCanonicalElemCircuit g c → c ∈ circuits g :=
+  Johnson.circuits_complete_of_tarjan g hwf hloops hrows htc
+
+/-- Every canonical elementary circuit is returned by the model of `Johnson75::circuits`. -/
+theorem johnson_complete (g : Graph) (hwf : g.WF) (hloops : NoLoops g) (hrows : RowsNodup g) :
+    ∀ c, IsCanonicalElemCircuit g c → c ∈ circuits g :=
+  johnson_complete_of_tarjan g hwf hloops hrows (tarjan_covers g hwf)
+
+/-! ## The full statement -/
+
+/-- C10 for the model: each elementary circuit exactly once, in canonical form, nothing else. -/
+theorem statement : Statement := fun g hwf hloops hrows =>
+  ⟨(johnson_sound g hwf hloops hrows).1,
+   fun c => ⟨(johnson_sound g hwf hloops hrows).2 c, johnson_complete g hwf hloops hrows c⟩⟩
+
+/-- The model's output is a permutation of the verified naive enumeration (the relation the
+driver checks between the IMPLEMENTATION's output and `allCircuits` on every instance). -/
+theorem johnson_perm_allCircuits (g : Graph) (hwf : g.WF) (hloops : NoLoops g) (hrows : RowsNodup g) :
+    (circuits g).Perm (allCircuits g) :=
+  (List.perm_ext_iff_of_nodup (johnson_sound g hwf hloops hrows).1 (allCircuits_nodup g hrows)).2
+    (fun c => ((statement g hwf hloops hrows).2 c).trans (allCircuits_spec g hwf c).symm)
+
+/-- The digraph the driver builds from a description whose arcs are in range and loop-free (what
+the handler checks before evaluating a case) satisfies the hypotheses of `statement`, so on every
+evaluated instance the model output IS a permutation of `allCircuits` — a MISMATCH-free,
+PROPFAIL-free case therefore shows that the implementation returned the model's list and that
+list is exactly the set of canonical elementary circuits. -/
+theorem statement_on_driver_graphs (n : Nat) (arcs : List (Nat × Nat))
+    (hv : ∀ a ∈ arcs, a.1 < n ∧ a.2 < n ∧ a.1 ≠ a.2) :
+    (circuits (Graph.ofRows (rowsOfArcs n arcs))).Perm (allCircuits (Graph.ofRows (rowsOfArcs n arcs))) := by
+  obtain ⟨h1, h2, h3⟩ := Johnson.driver_graph_ok n arcs hv
+  exact johnson_perm_allCircuits _ h1 h2 h3
+
+/-- Fuel adequacy of `unblock`: any fuel above the number of blocked vertices gives the same
+result (each recursion level removes one vertex from `blocked`). -/
+theorem unblock_fuel_adequate (f1 f2 : Nat) (st : JState) (u : Nat) (hnd : st.blocked.Nodup)
+    (h1 : st.blocked.length < f1) (h2 : st.blocked.length < f2) : unblock f1 st u = unblock f2 st u :=
+  Johnson.unblock_fuel_irrel f1 f2 st u hnd h1 h2
+
+/-- Fuel adequacy of `circuit`: from any state satisfying the soundness invariant `Inv`, any two
+fuels of at least (number of component vertices − stack height) give the same result — the
+recursion depth is bounded because the stack stays duplicate-free inside the component. -/
+theorem circuit_fuel_adequate (comp : AM) (s uf : Nat) (hrow : ∀ u, (comp.out u).Nodup)
+    (hclosed : ∀ u ∈ comp.verts, ∀ w ∈ comp.out u, w ∈ comp.verts)
+    (f1 f2 : Nat) (st : JState) (v : Nat) (hinv : Inv comp st) (hv : v ∉ st.blocked) (hvc : v ∈ comp.verts)
+    (hwalk : IsWalk comp.gr (st.stack ++ [v])) (h1 : comp.verts.length ≤ f1 + st.stack.length)
+    (h2 : comp.verts.length ≤ f2 + st.stack.length) :
+    circuit comp s uf f1 st v = circuit comp s uf f2 st v :=
+  Johnson.circuit_fuel_irrel comp s uf hrow hclosed f1 f2 st v hinv hv hvc hwalk h1 h2
+
+/-- Fuel adequacy of the Tarjan model: every call of `connect` indexes a new vertex, so any fuel
+above the number of unindexed vertices gives the same result, and `components` does not depend on
+the fuel once it exceeds the order. -/
+theorem connect_fuel_adequate (a : AM) (hcl : ∀ u ∈ a.verts, ∀ v ∈ a.out u, v ∈ a.verts)
+    (f1 f2 : Nat) (st : TState) (u : Nat) (hgi : GI a st) (hu : st.index.lookup u = none) (hv : u ∈ a.verts)
+    (h1 : unidx a st < f1) (h2 : unidx a st < f2) : connect a f1 st u = connect a f2 st u :=
+  Johnson.connect_fuel_irrel a hcl f1 f2 st u hgi hu hv h1 h2
+
+theorem tarjan_fuel_adequate (a : AM) (hcl : ∀ u ∈ a.verts, ∀ v ∈ a.out u, v ∈ a.verts) (f : Nat)
+    (hf : a.order < f) : tarjanFuel a f = tarjanFuel a (a.order + 1) :=
+  Johnson.tarjanFuel_irrel a hcl f hf
+
+/-- Non-vacuity: two 2-circuits sharing vertex 0 and a triangle. -/
+def gEx : Graph := ⟨3, fun u => match u with | 0 => [1, 2] | 1 => [0, 2] | 2 => [0] | _ => []⟩
+theorem gEx_wf : gEx.WF := by
+  intro u v h
+  match u with
+  | 0 | 1 | 2 => simp [gEx] at h; show _ < 3 ∧ _ < 3; omega
+  | _+3 => simp [gEx] at h
+example : allCircuits gEx = [[0, 1], [0, 1, 2], [0, 2]] := by decide
+example : circuits gEx = [[0, 1], [0, 1, 2], [0, 2]] := by decide
+theorem gEx_noloops : NoLoops gEx := by
+  intro u
+  match u with
+  | 0 | 1 | 2 => simp [gEx]
+  | _+3 => simp [gEx]
+theorem gEx_rows : RowsNodup gEx := by
+  intro u
+  match u with
+  | 0 | 1 | 2 => simp [gEx]
+  | _+3 => simp [gEx]
+example : IsCanonicalElemCircuit gEx [0, 1, 2] :=
+  (johnson_sound gEx gEx_wf gEx_noloops gEx_rows).2 _ (by decide)
+example : [0, 1, 2] ∈ circuits gEx :=
+  johnson_complete gEx gEx_wf gEx_noloops gEx_rows _ ((allCircuits_spec gEx gEx_wf _).1 (by decide))
+example : (circuits gEx).Perm (allCircuits gEx) := johnson_perm_allCircuits gEx gEx_wf gEx_noloops gEx_rows
+example : IsCanonicalElemCircuit gEx [0, 1, 2] := (allCircuits_spec gEx gEx_wf _).1 (by decide)
+
+end GraafVerif.C10
